@@ -107,12 +107,23 @@ class Tracer(object):
         def remove(path, *a, **kw):
             tr._point(("remove", tr.pid(path)))
             return real_remove(path, *a, **kw)
+        # a copy between two open files done by the kernel (what shutil's copy functions use): the destination holds part of the data meanwhile
+        real_sendfile = getattr(os, "sendfile", None)
+
+        def sendfile(*a, **kw):
+            tr._point(("copy",))
+            return real_sendfile(*a, **kw)
+        self._saved_sendfile = real_sendfile
+        if real_sendfile is not None:
+            os.sendfile = sendfile
         self._saved = (real_open, real_replace, real_rename, real_makedirs, real_fsync, real_remove, real_unlink)
         builtins.open, os.replace, os.rename, os.makedirs, os.fsync, os.remove, os.unlink = open_, replace, rename, makedirs, fsync, remove, remove
         return self
 
     def __exit__(self, *a):
         builtins.open, os.replace, os.rename, os.makedirs, os.fsync, os.remove, os.unlink = self._saved
+        if getattr(self, "_saved_sendfile", None) is not None:
+            os.sendfile = self._saved_sendfile
 
 
 def lean_op(op):
